@@ -109,7 +109,7 @@ class C11(PoolScenario):
             raise self.violation(obj.name, "pickle", "replica-diverged:fill-methods",
                                  "the pickle clone does not offer the same fill methods as the original (fill.numpy: original %s, clone %s)" % (
                                      hasattr(obj.fill, "numpy"), hasattr(c.value.fill, "numpy")), si)
-        if e.value is not True:
+        if not bool(e.value):
             raise self.violation(obj.name, "pickle", "eq-false-on-equal:pickle",
                                  "pickle clone does not compare equal to the original although their serialised content is identical", si,
                                  {"doc": before.value if before.ok else None})
@@ -195,7 +195,7 @@ class C11(PoolScenario):
                 self.compare(w, a, b, si, what)
                 w.bump("probe_lockstep_" + ("numpy" if what == "fillnumpy" else "fill"))
                 e = call(lambda: a == b)
-                if e.ok and e.value is not True:
+                if e.ok and not bool(e.value):
                     raise self.violation(a.name, what, "eq-false-on-equal:pickle", "after lock-step %s clone != original although "
                                          "their serialised content is identical" % what, si)
             else:
